@@ -1,5 +1,5 @@
 // auto-generated: "lalrpop 0.23.1"
-// sha3: a774533c8148e3a52f8ce6a4ea3791267b6ff32f3e593c36a4b4d7fbd2438291
+// sha3: 1aceab37680dc0e9d88b84db948c9e1e9a653e8b937f5c63a9bb664e9099db70
 use crate::rt::*;
 #[allow(unused_extern_crates)]
 extern crate lalrpop_util as __lalrpop_util;
@@ -679,15 +679,13 @@ fn __action0<
 fn __action1<
 >(
     (_, l, _): (i64, i64, i64),
-    (_, pL0, _): (i64, i64, i64),
     (_, c0, _): (i64, Tok, i64),
     (_, c1, _): (i64, Tree, i64),
-    (_, pR2, _): (i64, i64, i64),
     (_, c2, _): (i64, Tok, i64),
     (_, r, _): (i64, i64, i64),
 ) -> Tree
 {
-    { probe("S#0", 0, 'L', pL0); probe("S#0", 2, 'R', pR2); node("S#0", l, r, vec![Tree::from(c0), Tree::from(c1), Tree::from(c2)]) }
+    node("S#0", l, r, vec![Tree::from(c0), Tree::from(c1), Tree::from(c2)])
 }
 
 #[allow(clippy::too_many_arguments, clippy::needless_lifetimes, clippy::just_underscores_and_digits, clippy::extra_unused_type_parameters)]
@@ -695,12 +693,14 @@ fn __action2<
 >(
     (_, l, _): (i64, i64, i64),
     (_, c0, _): (i64, Tok, i64),
+    (_, pL1, _): (i64, i64, i64),
     (_, c1, _): (i64, Tree, i64),
+    (_, pL2, _): (i64, i64, i64),
     (_, c2, _): (i64, Tok, i64),
     (_, r, _): (i64, i64, i64),
 ) -> Tree
 {
-    node("S#1", l, r, vec![Tree::from(c0), Tree::from(c1), Tree::from(c2)])
+    { probe("S#1", 1, 'L', pL1); probe("S#1", 2, 'L', pL2); node("S#1", l, r, vec![Tree::from(c0), Tree::from(c1), Tree::from(c2)]) }
 }
 
 #[allow(clippy::too_many_arguments, clippy::needless_lifetimes, clippy::just_underscores_and_digits, clippy::extra_unused_type_parameters)]
@@ -710,62 +710,65 @@ fn __action3<
     (_, c0, _): (i64, Tok, i64),
     (_, c1, _): (i64, Tree, i64),
     (_, c2, _): (i64, Tok, i64),
-    (_, pL3, _): (i64, i64, i64),
     (_, r, _): (i64, i64, i64),
 ) -> Tree
 {
-    { probe("S#2", 3, 'L', pL3); node("S#2", l, r, vec![Tree::from(c0), Tree::from(c1), Tree::from(c2)]) }
+    node("S#2", l, r, vec![Tree::from(c0), Tree::from(c1), Tree::from(c2)])
 }
 
 #[allow(clippy::too_many_arguments, clippy::needless_lifetimes, clippy::just_underscores_and_digits, clippy::extra_unused_type_parameters)]
 fn __action4<
 >(
     (_, l, _): (i64, i64, i64),
-    (_, pR0, _): (i64, i64, i64),
     (_, c0, _): (i64, Tok, i64),
     (_, c1, _): (i64, Tree, i64),
+    (_, pL2, _): (i64, i64, i64),
     (_, c2, _): (i64, Tok, i64),
+    (_, pL3, _): (i64, i64, i64),
     (_, r, _): (i64, i64, i64),
 ) -> Tree
 {
-    { probe("S#3", 0, 'R', pR0); node("S#3", l, r, vec![Tree::from(c0), Tree::from(c1), Tree::from(c2)]) }
+    { probe("S#3", 2, 'L', pL2); probe("S#3", 3, 'L', pL3); node("S#3", l, r, vec![Tree::from(c0), Tree::from(c1), Tree::from(c2)]) }
 }
 
 #[allow(clippy::too_many_arguments, clippy::needless_lifetimes, clippy::just_underscores_and_digits, clippy::extra_unused_type_parameters)]
 fn __action5<
 >(
     (_, l, _): (i64, i64, i64),
-    (_, pR0, _): (i64, i64, i64),
     (_, c0, _): (i64, Tok, i64),
+    (_, pR1, _): (i64, i64, i64),
     (_, c1, _): (i64, Tree, i64),
+    (_, pR2, _): (i64, i64, i64),
     (_, r, _): (i64, i64, i64),
 ) -> Tree
 {
-    { probe("X#0", 0, 'R', pR0); node("X#0", l, r, vec![Tree::from(c0), Tree::from(c1)]) }
+    { probe("X#0", 1, 'R', pR1); probe("X#0", 2, 'R', pR2); node("X#0", l, r, vec![Tree::from(c0), Tree::from(c1)]) }
 }
 
 #[allow(clippy::too_many_arguments, clippy::needless_lifetimes, clippy::just_underscores_and_digits, clippy::extra_unused_type_parameters)]
 fn __action6<
 >(
     (_, l, _): (i64, i64, i64),
-    (_, pR0, _): (i64, i64, i64),
+    (_, pL0, _): (i64, i64, i64),
     (_, c0, _): (i64, Tok, i64),
     (_, r, _): (i64, i64, i64),
 ) -> Tree
 {
-    { probe("X#1", 0, 'R', pR0); node("X#1", l, r, vec![Tree::from(c0)]) }
+    { probe("X#1", 0, 'L', pL0); node("X#1", l, r, vec![Tree::from(c0)]) }
 }
 
 #[allow(clippy::too_many_arguments, clippy::needless_lifetimes, clippy::just_underscores_and_digits, clippy::extra_unused_type_parameters)]
 fn __action7<
 >(
     (_, l, _): (i64, i64, i64),
+    (_, pL0, _): (i64, i64, i64),
     (_, c0, _): (i64, Tok, i64),
+    (_, pL1, _): (i64, i64, i64),
     (_, c1, _): (i64, Tree, i64),
     (_, r, _): (i64, i64, i64),
 ) -> Tree
 {
-    node("Y#0", l, r, vec![Tree::from(c0), Tree::from(c1)])
+    { probe("Y#0", 0, 'L', pL0); probe("Y#0", 1, 'L', pL1); node("Y#0", l, r, vec![Tree::from(c0), Tree::from(c1)]) }
 }
 
 #[allow(clippy::too_many_arguments, clippy::needless_lifetimes, clippy::just_underscores_and_digits, clippy::extra_unused_type_parameters)]
@@ -773,10 +776,11 @@ fn __action8<
 >(
     (_, l, _): (i64, i64, i64),
     (_, c0, _): (i64, Tok, i64),
+    (_, pR1, _): (i64, i64, i64),
     (_, r, _): (i64, i64, i64),
 ) -> Tree
 {
-    node("Y#1", l, r, vec![Tree::from(c0)])
+    { probe("Y#1", 1, 'R', pR1); node("Y#1", l, r, vec![Tree::from(c0)]) }
 }
 
 #[allow(clippy::needless_lifetimes, clippy::clone_on_copy)]
@@ -805,33 +809,23 @@ fn __action11<
 >(
     __0: (i64, Tok, i64),
     __1: (i64, Tree, i64),
-    __2: (i64, i64, i64),
-    __3: (i64, Tok, i64),
-    __4: (i64, i64, i64),
+    __2: (i64, Tok, i64),
+    __3: (i64, i64, i64),
 ) -> Tree
 {
     let __start0 = __0.0.clone();
     let __end0 = __0.0.clone();
-    let __start1 = __0.0.clone();
-    let __end1 = __0.0.clone();
     let __temp0 = __action10(
         &__start0,
         &__end0,
     );
     let __temp0 = (__start0, __temp0, __end0);
-    let __temp1 = __action10(
-        &__start1,
-        &__end1,
-    );
-    let __temp1 = (__start1, __temp1, __end1);
     __action1(
         __temp0,
-        __temp1,
         __0,
         __1,
         __2,
         __3,
-        __4,
     )
 }
 
@@ -847,15 +841,31 @@ fn __action12<
 {
     let __start0 = __0.0.clone();
     let __end0 = __0.0.clone();
+    let __start1 = __0.2.clone();
+    let __end1 = __1.0.clone();
+    let __start2 = __1.2.clone();
+    let __end2 = __2.0.clone();
     let __temp0 = __action10(
         &__start0,
         &__end0,
     );
     let __temp0 = (__start0, __temp0, __end0);
+    let __temp1 = __action10(
+        &__start1,
+        &__end1,
+    );
+    let __temp1 = (__start1, __temp1, __end1);
+    let __temp2 = __action10(
+        &__start2,
+        &__end2,
+    );
+    let __temp2 = (__start2, __temp2, __end2);
     __action2(
         __temp0,
         __0,
+        __temp1,
         __1,
+        __temp2,
         __2,
         __3,
     )
@@ -873,8 +883,36 @@ fn __action13<
 {
     let __start0 = __0.0.clone();
     let __end0 = __0.0.clone();
-    let __start1 = __2.2.clone();
-    let __end1 = __3.0.clone();
+    let __temp0 = __action10(
+        &__start0,
+        &__end0,
+    );
+    let __temp0 = (__start0, __temp0, __end0);
+    __action3(
+        __temp0,
+        __0,
+        __1,
+        __2,
+        __3,
+    )
+}
+
+#[allow(clippy::too_many_arguments, clippy::needless_lifetimes,
+    clippy::just_underscores_and_digits, clippy::clone_on_copy, clippy::unit_arg)]
+fn __action14<
+>(
+    __0: (i64, Tok, i64),
+    __1: (i64, Tree, i64),
+    __2: (i64, Tok, i64),
+    __3: (i64, i64, i64),
+) -> Tree
+{
+    let __start0 = __0.0.clone();
+    let __end0 = __0.0.clone();
+    let __start1 = __1.2.clone();
+    let __end1 = __2.0.clone();
+    let __start2 = __2.2.clone();
+    let __end2 = __3.0.clone();
     let __temp0 = __action10(
         &__start0,
         &__end0,
@@ -885,41 +923,19 @@ fn __action13<
         &__end1,
     );
     let __temp1 = (__start1, __temp1, __end1);
-    __action3(
-        __temp0,
-        __0,
-        __1,
-        __2,
-        __temp1,
-        __3,
-    )
-}
-
-#[allow(clippy::too_many_arguments, clippy::needless_lifetimes,
-    clippy::just_underscores_and_digits, clippy::clone_on_copy, clippy::unit_arg)]
-fn __action14<
->(
-    __0: (i64, i64, i64),
-    __1: (i64, Tok, i64),
-    __2: (i64, Tree, i64),
-    __3: (i64, Tok, i64),
-    __4: (i64, i64, i64),
-) -> Tree
-{
-    let __start0 = __0.0.clone();
-    let __end0 = __0.0.clone();
-    let __temp0 = __action10(
-        &__start0,
-        &__end0,
+    let __temp2 = __action10(
+        &__start2,
+        &__end2,
     );
-    let __temp0 = (__start0, __temp0, __end0);
+    let __temp2 = (__start2, __temp2, __end2);
     __action4(
         __temp0,
         __0,
         __1,
+        __temp1,
         __2,
+        __temp2,
         __3,
-        __4,
     )
 }
 
@@ -927,10 +943,11 @@ fn __action14<
     clippy::just_underscores_and_digits, clippy::clone_on_copy, clippy::unit_arg)]
 fn __action15<
 >(
-    __0: (i64, i64, i64),
-    __1: (i64, Tok, i64),
+    __0: (i64, Tok, i64),
+    __1: (i64, i64, i64),
     __2: (i64, Tree, i64),
     __3: (i64, i64, i64),
+    __4: (i64, i64, i64),
 ) -> Tree
 {
     let __start0 = __0.0.clone();
@@ -946,6 +963,7 @@ fn __action15<
         __1,
         __2,
         __3,
+        __4,
     )
 }
 
@@ -953,23 +971,29 @@ fn __action15<
     clippy::just_underscores_and_digits, clippy::clone_on_copy, clippy::unit_arg)]
 fn __action16<
 >(
-    __0: (i64, i64, i64),
-    __1: (i64, Tok, i64),
-    __2: (i64, i64, i64),
+    __0: (i64, Tok, i64),
+    __1: (i64, i64, i64),
 ) -> Tree
 {
     let __start0 = __0.0.clone();
     let __end0 = __0.0.clone();
+    let __start1 = __0.0.clone();
+    let __end1 = __0.0.clone();
     let __temp0 = __action10(
         &__start0,
         &__end0,
     );
     let __temp0 = (__start0, __temp0, __end0);
+    let __temp1 = __action10(
+        &__start1,
+        &__end1,
+    );
+    let __temp1 = (__start1, __temp1, __end1);
     __action6(
         __temp0,
+        __temp1,
         __0,
         __1,
-        __2,
     )
 }
 
@@ -984,14 +1008,30 @@ fn __action17<
 {
     let __start0 = __0.0.clone();
     let __end0 = __0.0.clone();
+    let __start1 = __0.0.clone();
+    let __end1 = __0.0.clone();
+    let __start2 = __0.2.clone();
+    let __end2 = __1.0.clone();
     let __temp0 = __action10(
         &__start0,
         &__end0,
     );
     let __temp0 = (__start0, __temp0, __end0);
+    let __temp1 = __action10(
+        &__start1,
+        &__end1,
+    );
+    let __temp1 = (__start1, __temp1, __end1);
+    let __temp2 = __action10(
+        &__start2,
+        &__end2,
+    );
+    let __temp2 = (__start2, __temp2, __end2);
     __action7(
         __temp0,
+        __temp1,
         __0,
+        __temp2,
         __1,
         __2,
     )
@@ -1003,6 +1043,7 @@ fn __action18<
 >(
     __0: (i64, Tok, i64),
     __1: (i64, i64, i64),
+    __2: (i64, i64, i64),
 ) -> Tree
 {
     let __start0 = __0.0.clone();
@@ -1016,6 +1057,7 @@ fn __action18<
         __temp0,
         __0,
         __1,
+        __2,
     )
 }
 
@@ -1028,26 +1070,18 @@ fn __action19<
     __2: (i64, Tok, i64),
 ) -> Tree
 {
-    let __start0 = __1.2.clone();
-    let __end0 = __2.0.clone();
-    let __start1 = __2.2.clone();
-    let __end1 = __2.2.clone();
+    let __start0 = __2.2.clone();
+    let __end0 = __2.2.clone();
     let __temp0 = __action9(
         &__start0,
         &__end0,
     );
     let __temp0 = (__start0, __temp0, __end0);
-    let __temp1 = __action9(
-        &__start1,
-        &__end1,
-    );
-    let __temp1 = (__start1, __temp1, __end1);
     __action11(
         __0,
         __1,
-        __temp0,
         __2,
-        __temp1,
+        __temp0,
     )
 }
 
@@ -1108,26 +1142,18 @@ fn __action22<
     __2: (i64, Tok, i64),
 ) -> Tree
 {
-    let __start0 = __0.0.clone();
-    let __end0 = __0.0.clone();
-    let __start1 = __2.2.clone();
-    let __end1 = __2.2.clone();
+    let __start0 = __2.2.clone();
+    let __end0 = __2.2.clone();
     let __temp0 = __action9(
         &__start0,
         &__end0,
     );
     let __temp0 = (__start0, __temp0, __end0);
-    let __temp1 = __action9(
-        &__start1,
-        &__end1,
-    );
-    let __temp1 = (__start1, __temp1, __end1);
     __action14(
-        __temp0,
         __0,
         __1,
         __2,
-        __temp1,
+        __temp0,
     )
 }
 
@@ -1139,10 +1165,12 @@ fn __action23<
     __1: (i64, Tree, i64),
 ) -> Tree
 {
-    let __start0 = __0.0.clone();
-    let __end0 = __0.0.clone();
+    let __start0 = __0.2.clone();
+    let __end0 = __1.0.clone();
     let __start1 = __1.2.clone();
     let __end1 = __1.2.clone();
+    let __start2 = __1.2.clone();
+    let __end2 = __1.2.clone();
     let __temp0 = __action9(
         &__start0,
         &__end0,
@@ -1153,11 +1181,17 @@ fn __action23<
         &__end1,
     );
     let __temp1 = (__start1, __temp1, __end1);
+    let __temp2 = __action9(
+        &__start2,
+        &__end2,
+    );
+    let __temp2 = (__start2, __temp2, __end2);
     __action15(
-        __temp0,
         __0,
+        __temp0,
         __1,
         __temp1,
+        __temp2,
     )
 }
 
@@ -1168,24 +1202,16 @@ fn __action24<
     __0: (i64, Tok, i64),
 ) -> Tree
 {
-    let __start0 = __0.0.clone();
-    let __end0 = __0.0.clone();
-    let __start1 = __0.2.clone();
-    let __end1 = __0.2.clone();
+    let __start0 = __0.2.clone();
+    let __end0 = __0.2.clone();
     let __temp0 = __action9(
         &__start0,
         &__end0,
     );
     let __temp0 = (__start0, __temp0, __end0);
-    let __temp1 = __action9(
-        &__start1,
-        &__end1,
-    );
-    let __temp1 = (__start1, __temp1, __end1);
     __action16(
-        __temp0,
         __0,
-        __temp1,
+        __temp0,
     )
 }
 
@@ -1220,14 +1246,22 @@ fn __action26<
 {
     let __start0 = __0.2.clone();
     let __end0 = __0.2.clone();
+    let __start1 = __0.2.clone();
+    let __end1 = __0.2.clone();
     let __temp0 = __action9(
         &__start0,
         &__end0,
     );
     let __temp0 = (__start0, __temp0, __end0);
+    let __temp1 = __action9(
+        &__start1,
+        &__end1,
+    );
+    let __temp1 = (__start1, __temp1, __end1);
     __action18(
         __0,
         __temp0,
+        __temp1,
     )
 }
 
